@@ -13,6 +13,8 @@ def run(out, sc, tier, seed):
     n = 12000 if tier == "quick" else 100000
     run_progs(out, sc, "C11", {"gen": "progs", "n": n, "seed": seed, "surrogate_p": 0.02, "fields": FIELDS,
                                "build_p": 0.15, "depths": [1, 2, 2, 3]}, "progs")
+    # the authority grid of C17 (every port SPELLING, stored canonically and verbatim) under one authority modifier each
+    run_progs(out, sc, "C11", {"gen": "ports", "mode": "frame", "seed": seed, "fields": FIELDS}, "authority-grid")
     run_harvest(out, sc, "C11")
     from .common import run_witnesses
     run_witnesses(out, sc, "C11", fields=FIELDS)
